@@ -424,10 +424,13 @@ fn gen_follower(r: &mut Rng, malformed: bool) -> String {
     let mut ops = Vec::new();
     let mut next = match r.below(4) { 0 => 1, 1 => agree + 1, 2 => 1 + r.below(n + 1), _ => (agree + 1).saturating_sub(r.below(3)).max(1) };
     let mut lcommit = r.below(n + 1);
+    let mut stop = false;
     for _ in 0..nops {
+        if stop { break; }
         let qn = 1 + if r.chance(1, 2) { r.below(4) } else { 0 };
         let mut reqs = Vec::new();
         for _ in 0..qn {
+            if stop { break; }
             let cap = *r.pick(&[0u64, 1, 2, 3, 100]);
             let prev = next.saturating_sub(1).min(n);
             let to = (prev + cap).min(n);
@@ -441,7 +444,9 @@ fn gen_follower(r: &mut Rng, malformed: bool) -> String {
                 match r.below(7) {
                     0 => { rterm = fterm.saturating_sub(1); }                 // stale leader term
                     1 => { pterm += 1; }                                        // wrong prev term
-                    2 => { if to >= prev + 3 { ents = format!("{},{}", ldr.ents(prev + 1, prev + 1), ldr.ents(prev + 3, to)); } } // gapped
+                    // gapped request: the follower takes it as it comes (a hole in its log); nothing is sent
+                    // afterwards because `entry_term` inside a hole is answered by TermSegments (family buflog)
+                    2 => { if to >= prev + 3 { ents = format!("{},{}", ldr.ents(prev + 1, prev + 1), ldr.ents(prev + 3, to)); stop = true; } }
                     3 => { c = r.below(n + 3); }                                // commit going backwards / beyond
                     4 => { jump = true; }                                       // non-chaining next request
                     5 => { rterm += 1; }                                        // different term inside the queue
@@ -456,8 +461,8 @@ fn gen_follower(r: &mut Rng, malformed: bool) -> String {
         ops.push(reqs.join("+"));
     }
     format!(
-        "F term={} commit={} merge={} purge={} log={}|{}",
-        fterm, commit, merge, purge, dv::show_list(&fterms), ops.join(";")
+        "F term={} commit={} merge={} purge={} log={} ldr={}|{}",
+        fterm, commit, merge, purge, dv::show_list(&fterms), dv::show_list(&lterms), ops.join(";")
     )
 }
 
